@@ -162,6 +162,22 @@ def handle (st : St) (line : String) : St × List String :=
       if e.tape.t == realTape.t && e.tape.root == realTape.root then (st, [s!"ok {tag}"])
       else (st, [s!"MISMATCH {tag} model-depth {res.length - 1} real-depth {d} of {n}"])
     | [] => (st, [s!"MISMATCH {tag} empty"])
+  | "base-region" :: x0 :: y0 :: z0 :: x1 :: y1 :: z1 :: "depth" :: d :: "of" :: n :: _ =>
+    let tag := s!"case {st.case} getBaseRegion {x0} {y0} {z0} {x1} {y1} {z1}"
+    let lo := (f32! x0, f32! y0, f32! z0)
+    let hi := (f32! x1, f32! y1, f32! z1)
+    let entries : List (StackEntry Float32) :=
+      (st.stack.zip (st.types.zip st.boxes)).map fun (T, ty, bx) =>
+        { type := ty, lo := bx.1, hi := bx.2, tape := T }
+    let res := getBase fle entries lo hi
+    let n := nat! n
+    let d := nat! d
+    let realTape := (st.stack.reverse).getD d default
+    match res with
+    | e :: _ =>
+      if e.tape.t == realTape.t && e.tape.root == realTape.root then (st, [s!"ok {tag}"])
+      else (st, [s!"MISMATCH {tag} model-depth {res.length - 1} real-depth {d} of {n}"])
+    | [] => (st, [s!"MISMATCH {tag} empty"])
   | _ => (st, [])
 
 def run (_args : List String) (lines : Array String) : Array String := Id.run do
